@@ -1,6 +1,6 @@
 (** C04 — the ordered queues are a double-ended queue of futures, for every value of the
     position counters (wrapped and re-based ones included); join results are in input order *)
-From FB Require Import Base Syntax World SlotMap Fub Ordered Adapters UnboundedProofs WordArith OrderProofs FobOrder JoinProofs
+From FB Require Import Base Syntax World SlotMap Fub Unbounded Ordered Adapters UnboundedProofs WordArith OrderProofs FobOrder FoOrder JoinProofs
   WorldProofs FubProofs.
 From Coq Require Import Permutation.
 Local Open Scope Z_scope.
@@ -92,3 +92,44 @@ Theorem C04_join_results_in_input_order :
   winv own None w' /\ fub_ok own (j_q j') /\ join_inv ids j' /\ ret_ok ids r.
 Proof. exact join_poll_inv. Qed.
 Print Assumptions C04_join_results_in_input_order.
+
+(** FuturesOrdered (unbounded): the running indices are spread over the groups of the inner
+    FuturesUnordered; its round-robin loop conserves them (an item takes exactly its own index
+    out, discarded groups are empty) *)
+Theorem C04_unbounded_inner_loop_conserves_indices :
+  forall (P : params) (n : nat) (u : fu) (t : nat) (w : world),
+  Forall (fun g => SlotMapProofs.sm_wf (tasks g)) (groups u) ->
+  let '(u', sp, _) := fu_loop P false n u t w in
+  match sp with
+  | SItem _ c => Permutation (run_fu u) (cidx c :: run_fu u')
+  | _ => Permutation (run_fu u) (run_fu u')
+  end /\ Forall (fun g => SlotMapProofs.sm_wf (tasks g)) (groups u').
+Proof. exact fu_loop_run. Qed.
+Print Assumptions C04_unbounded_inner_loop_conserves_indices.
+
+(** ... so one poll of FuturesOrdered keeps the queue-order invariant (also across re-basing),
+    releases only the front, and returns None only when nothing is held *)
+Theorem C04_unbounded_poll_keeps_queue_order :
+  forall (P : params), params_ok P -> forall (q : fo) (t : nat) (w : world),
+  fo_oinv P q -> Forall (fun g => SlotMapProofs.sm_wf (tasks g)) (groups (fu_inner q)) ->
+  let '(q', sp, _) := fo_poll_next P q t w in
+  fo_oinv P q' /\ match sp with SNone => run_fu (fu_inner q') = [] -> oheap (fu_ord q') = [] | _ => True end.
+Proof. exact fo_poll_order. Qed.
+Print Assumptions C04_unbounded_poll_keeps_queue_order.
+
+(** push_back / push_front of FuturesOrdered keep it, given that the inner push adds exactly the
+    new index (which [C04_unbounded_push_adds_the_index] shows, up to the unreachable Stuck arm) *)
+Theorem C04_unbounded_push_keeps_queue_order :
+  forall (P : params), params_ok P -> forall (front : bool) (q : fo) (c : child) (w : world),
+  fo_oinv P q -> Z.of_nat (length (held (run_fu (fu_inner q)) (fu_ord q))) + 1 < msb P ->
+  let idx := if front then wdec P (nout (fu_ord q)) else nin (fu_ord q) in
+  Permutation (run_fu (fst (fu_push P false (fu_inner q) (child_set_idx c idx) w))) (idx :: run_fu (fu_inner q)) ->
+  fo_oinv P (fst (fo_push P front q c w)).
+Proof. exact fo_push_order. Qed.
+Print Assumptions C04_unbounded_push_keeps_queue_order.
+
+Theorem C04_unbounded_push_adds_the_index :
+  forall (P : params) (mrg : bool) (u : fu) (c : child) (w : world),
+  Permutation (run_fu (fst (fu_push P mrg u c w))) (cidx c :: run_fu u) \/ run_fu (fst (fu_push P mrg u c w)) = run_fu u.
+Proof. exact fu_push_run. Qed.
+Print Assumptions C04_unbounded_push_adds_the_index.
